@@ -2,12 +2,13 @@
 
 // Package c14: correspondence + property harness for C14 (every xDS snapshot sent to a proxy is closed and
 // well-formed).  Three generators:
-//   genHelpers — the REAL dedupeDomains / mergeAllVirtualHosts / normalizeClusters / conflictsWith /
-//                toFilterChainMatch / mergeTCPFilterChains on generated inputs (model_ok = Coq model agrees);
-//   genSeq     — the REAL buildSidecarOutboundListener over generated call sequences on one conflict map;
-//   genPushes  — REAL full pushes (CDS+EDS+LDS+RDS generators of the fake discovery server) for sidecar, router and
-//                waypoint proxies over generated worlds, projected into the abstract snapshot whose well-formedness
-//                the Coq-evaluated checker decides; protoc-gen-validate Validate() and panics are harness violations.
+//
+//	genHelpers — the REAL dedupeDomains / mergeAllVirtualHosts / normalizeClusters / conflictsWith /
+//	             toFilterChainMatch / mergeTCPFilterChains on generated inputs (model_ok = Coq model agrees);
+//	genSeq     — the REAL buildSidecarOutboundListener over generated call sequences on one conflict map;
+//	genPushes  — REAL full pushes (CDS+EDS+LDS+RDS generators of the fake discovery server) for sidecar, router and
+//	             waypoint proxies over generated worlds, projected into the abstract snapshot whose well-formedness
+//	             the Coq-evaluated checker decides; protoc-gen-validate Validate() and panics are harness violations.
 package c14
 
 import (
@@ -62,7 +63,9 @@ func (m mchain) term() string {
 	return vlib.App("Ch", vlib.NI(m.T), nlist(m.ALPN), nlist(m.SNI),
 		vlib.ListOf(m.CIDR, func(p [2]uint64) string { return vlib.Pair(vlib.N(p[0]), vlib.N(p[1])) }))
 }
-func chainsTerm(cs []mchain) string { return vlib.ListOf(cs, func(m mchain) string { return m.term() }) }
+func chainsTerm(cs []mchain) string {
+	return vlib.ListOf(cs, func(m mchain) string { return m.term() })
+}
 
 // interning tables shared by all chain projections (stable: fixed pools first)
 var transportCode = map[string]int{"": 0, "raw_buffer": 1, "tls": 2}
@@ -184,7 +187,7 @@ func addConf(c *vlib.Collector, id int, a, b core.VerifC14Chain, tags []string) 
 		tags = append(tags, "conf:same-match")
 	}
 	c.Add(vlib.Case{ID: id, Term: vlib.App("Conf", vlib.NI(id), ma.term(), mb.term(), vlib.B(conf), ta, tb), Tags: tags,
-		Sample: map[string]any{"kind": "conflictsWith/toFilterChainMatch", "a": a, "b": b, "conflict": conf},
+		Sample:  map[string]any{"kind": "conflictsWith/toFilterChainMatch", "a": a, "b": b, "conflict": conf},
 		Trivial: !conf && ta != tb})
 }
 
